@@ -359,6 +359,7 @@ func monitorStream(which string) StreamMonitor {
 						viol("C03", "lost-event", fmt.Sprintf("op %d: vb %d %s seq %d passes every documented filter but was not delivered", i, vb, ev.Kind, seq), i)
 					} else if isMetaKey(evKey(ev)) {
 						viol("C14", "reserved-key-delivered", fmt.Sprintf("op %d: vb %d event with reserved key %q was shown to the consumer", i, vb, evKey(ev)), i)
+						viol("C03", "filtered-event-delivered", fmt.Sprintf("op %d: vb %d %s seq %d has the reserved key %q and should have been removed by the filter but was delivered", i, vb, ev.Kind, seq, evKey(ev)), i)
 					} else {
 						viol("C03", "filtered-event-delivered", fmt.Sprintf("op %d: vb %d %s seq %d should have been removed by a filter (catch-up / skipUntil) but was delivered", i, vb, ev.Kind, seq), i)
 					}
@@ -379,6 +380,7 @@ func monitorStream(which string) StreamMonitor {
 					sn := s.snap[vb]
 					if o.Off.Seq != ev.Item.Seq || sn == nil || o.Off.Start != sn[0] || o.Off.End != sn[1] || o.Off.UUID != s.uuid[vb] {
 						viol("C06", "torn-offset", fmt.Sprintf("op %d: offset %+v is not (branch %d, seq %d, snapshot %v) of the delivered event", i, *o.Off, s.uuid[vb], ev.Item.Seq, sn), i)
+						viol("C03", "offset-not-of-event", fmt.Sprintf("op %d: the event at seq %d of vb %d was handed to the consumer with the offset %+v (branch %d, snapshot %v in force)", i, ev.Item.Seq, vb, *o.Off, s.uuid[vb], sn), i)
 					}
 					s.ctxs = append(s.ctxs, &ctxInfo{vb: vb, off: *o.Off, session: s.session, opIdx: i})
 				}
@@ -447,6 +449,7 @@ func monitorStream(which string) StreamMonitor {
 					for _, t := range tracks {
 						if *t.Off != cx.off || t.Vb != cx.vb {
 							viol("C04", "ack-wrong-offset", fmt.Sprintf("op %d: acknowledged offset %+v but TrackOffset got vb %d %+v", i, cx.off, t.Vb, *t.Off), i)
+							viol("C03", "offset-changed-after-delivery", fmt.Sprintf("op %d: the event of vb %d was handed to the consumer with the offset %+v; when it was acknowledged the same context carried %+v", i, cx.vb, cx.off, *t.Off), i)
 						}
 						s.noteTrack(cx.vb, *t.Off, i, viol, s.closedWin)
 						s.settled[cx.vb] = append(s.settled[cx.vb], *t.Off)
@@ -645,6 +648,11 @@ func (s *shadow) noteTrack(vb uint16, off SOffset, i int, viol func(prop, class,
 			cl = "closed-window-ack"
 		}
 		viol("C04", cl, fmt.Sprintf("op %d: tracked position of vb %d moved backwards from seq %d to seq %d", i, vb, cur.Seq, off.Seq), i)
+	}
+	// C08: while the replay after a server-requested rollback has not passed the checkpointed position F, nothing moves the
+	// position below F: a restart from there would show the consumer (position, F] a second time
+	if f := s.catchup[vb]; f != nil && off.Seq < *f {
+		viol("C08", "position-below-failed-seqno", fmt.Sprintf("op %d: after a rollback with checkpointed position %d the tracked position of vb %d moved to %d", i, *f, vb, off.Seq), i)
 	}
 	o := off
 	s.tracked[vb] = &o
